@@ -182,3 +182,10 @@ func New(name string, k int, seed int64) *Palette {
 	}
 	return check(p)
 }
+
+// WithoutEmptyValue maps spec value 0 to a non-empty byte string (for checks whose oracle
+// cannot handle empty values: the ics23 verifier rejects empty leaf values by design).
+func (p *Palette) WithoutEmptyValue() *Palette {
+	p.vals = append([][]byte{[]byte("v0")}, p.vals[1:]...)
+	return p
+}
